@@ -7,7 +7,7 @@ Driver for C20.  Everything here is glue (token parser, the concrete family of o
 callables, printing); the functions called are the model's.
 
   bool <bexp tokens> <val>                  -> interp,compiled,evalC(0|1|x),nonRaising
-  sel  <start> <docs> <steps>               -> ids of the last step ("N" = None, "err" = IndexError)
+  sel  <start> <docs> <steps>               -> ids of the last step ("err" = IndexError)
       start = "doc i" | "node id" | "res" | "fn"
       docs  = "k tree…"            tree = "T id name nattrs attr… nchildren tree…"
       steps = "k step…"            step = "S deep roots nq query…" | "G query"
@@ -135,8 +135,7 @@ def opqEnv : Env := fun k v =>
 def showB (b : Bool) : String := if b then "1" else "0"
 def showOut : Out → String | .ret b => showB b | .raise => "x"
 
-def showIds (xs : List (Option Nat)) : String :=
-  encList (xs.map (fun x => match x with | some i => toString i | none => "N"))
+def showIds (xs : List Nat) : String := encList (xs.map toString)
 
 /-- the children a step works on: an Entry's own children, or a Result's grandchildren -/
 inductive St where
@@ -153,15 +152,15 @@ def stepNodes (s : St) (st : Step) : Option (List Node) :=
   | .get q, .result ch => some (resultGetitem opqEnv ch q)
   | .get _, .fn _ => none
 
-def stepFinal (s : St) (st : Step) : Option (Option (List (Option Nat))) :=
+def stepFinal (s : St) (st : Step) : Option (Option (List Nat)) :=
   match st, s with
   | .sel true roots qs, .entry e => some (entryFind opqEnv e qs roots)
   | .sel false roots qs, .entry e => some (entrySelect opqEnv e qs false roots)
   | .sel true roots qs, .result ch => some (resultFind opqEnv ch qs roots)
   | .sel false roots qs, .result ch => some (resultSelect opqEnv ch qs false roots)
   | .sel deep roots qs, .fn ns => some (select opqEnv qs ns deep roots)
-  | .get q, .entry e => some (some ((entryGetitem opqEnv e q).map (fun n => some n.id)))
-  | .get q, .result ch => some (some ((resultGetitem opqEnv ch q).map (fun n => some n.id)))
+  | .get q, .entry e => some (some ((entryGetitem opqEnv e q).map Node.id))
+  | .get q, .result ch => some (some ((resultGetitem opqEnv ch q).map Node.id))
   | .get _, .fn _ => none
 
 def runSteps : St → List Step → String
